@@ -68,6 +68,12 @@ func checkC13(c *Ctx) {
 	c.Rule("C13-R20", "the column covered by a wide rune is not written on its own: every way round the column loop of draw passes drawCell, whose answer is the step (a continue for locked cells in front of it visits the covered, permanently dirty column)")
 	c.Expect("C13-R20", 1)
 	checkColumnLoopStepsByDrawCell(c, p, "C13-R20")
+	c.Rule("C13-R21", "what is written for a cell takes the columns the painter counts for it: ACS glyph, fallback string and '?' are written for the main rune only, an unrepresentable combining rune is elided (an extra '?' shifts everything after it onto unchanged and locked cells; = C17-R12)")
+	c.Expect("C13-R21", 2)
+	checkFallbackOnlyForMainRune(c, p, "C13-R21")
+	c.Rule("C13-R22", "storing the content a cell already has dirties nothing: SetContent dirties covered columns only inside the content-changed test (= C08-R6)")
+	c.Expect("C13-R22", 1)
+	c.asRule("C08-R6", "C13-R22", func() { c08Wide(c, p, cbMethods(p)) })
 	c.Rule("C13-R10", "a cell marked dirty (marker rune zero: SetDirty(true), Invalidate, UnlockCell) is reported dirty whatever it holds, also one nothing was ever stored in; combining runes are compared in full")
 	c.Expect("C13-R10", 2)
 	c.asRule("C08-R9", "C13-R10", func() { checkDirtyDecisions(c, p, "C08-R9") })
